@@ -142,7 +142,7 @@ func RunCheck(o CheckOpts) *CheckResult {
 	eng.loadSecs = time.Since(t0).Seconds()
 	// generate
 	for _, c := range cons {
-		if o.Only != "" && !strings.Contains(c.Key(), o.Only) {
+		if o.Only != "" && !onlyMatch(c.Key(), o.Only) {
 			continue
 		}
 		fn, err := eng.FindFunction(c)
@@ -158,7 +158,7 @@ func RunCheck(o CheckOpts) *CheckResult {
 		res.Functions = append(res.Functions, short)
 	}
 	for _, l := range lemmas {
-		if o.Only != "" && !strings.Contains(l.Name, o.Only) {
+		if o.Only != "" && !onlyMatch(l.Name, o.Only) {
 			continue
 		}
 		u := eng.VerifyLemma(l)
@@ -582,6 +582,12 @@ func writeEvidence(o CheckOpts, res *CheckResult, viol int) {
 		"solvers z3 4.8.12 / z3-new 5.1.0 / cvc5 1.0 are trusted for unsat answers",
 		"a panicking path ends the execution (partial correctness) except in functions marked safe, where every panic is an obligation",
 		"termination is proved only where a decreases clause is given")
+	for _, n := range res.Notes {
+		if strings.HasPrefix(n, "channels:") {
+			assumptions = append(assumptions, n)
+			break
+		}
+	}
 	cov := map[string]interface{}{
 		// obligations the claim rests on: those generated, minus the ones listed as open known findings
 		// (genuine defects recorded in /verif/known_findings.json; they are NOT discharged and are
@@ -624,3 +630,13 @@ func writeEvidence(o CheckOpts, res *CheckResult, viol int) {
 }
 
 var propLevels = map[string]string{"C01": "other"}
+
+// onlyMatch: --only takes comma-separated substrings; a name matches if it contains any of them.
+func onlyMatch(name, only string) bool {
+	for _, p := range strings.Split(only, ",") {
+		if p != "" && strings.Contains(name, p) {
+			return true
+		}
+	}
+	return false
+}
